@@ -359,3 +359,28 @@ Example poly_drift_order2_five_scans :
     [[-1 # 2; -1 # 4; 0; 1 # 4; 1 # 2]; [1 # 8; -1 # 16; -1 # 8; -1 # 16; 1 # 8]; [1; 1; 1; 1; 1]]%Q /\
   poly_drift 2 (map (fun t => (2 # 1) * t + 3)%Q [0; 1; 2; 3; 4]%Q) = poly_drift 2 [0; 1; 2; 3; 4]%Q.
 Proof. vm_compute. auto. Qed.
+
+(* ---------------------------------------------------------------- (10) the Gram-Schmidt step of _orthogonalize *)
+From NV.C07 Require Import Proofs5.
+(* `X[:, i] -= X[:, i] . P_i` as modelled by orth_col, for ANY preceding columns pre ++ c0 :: post of the length of x and
+   any x: the new column is orthogonal to every preceding column c0 that pinv keeps (squared norm above rcond^2 times the
+   largest one), provided the kept preceding columns are orthogonal to c0 - which is what the earlier steps establish.
+   This is the inductive step of "polynomial-drift columns are mutually orthogonal" (_poly_drift = _orthogonalize of the
+   powers); PARTIAL with respect to that clause: the induction over all columns with pinv's discard rule is not done. *)
+Theorem orthogonalize_step_orthogonal_to_kept_columns_partial : forall pre c0 post x,
+  Forall (fun c => length c = length x) (pre ++ c0 :: post) ->
+  kept (orth_mx (pre ++ c0 :: post)) c0 ->
+  (forall c, In c pre \/ In c post -> kept (orth_mx (pre ++ c0 :: post)) c -> dot c c0 == 0) ->
+  dot (orth_col (pre ++ c0 :: post) x) c0 == 0.
+Proof. exact orth_col_orthogonal_step. Qed.
+Print Assumptions orthogonalize_step_orthogonal_to_kept_columns_partial.
+
+(* non-vacuity: the hypotheses hold for the first two polynomial-drift columns of five scans (both kept, mutually
+   orthogonal) and x = the squares; the three columns of the order-2 drift are pairwise orthogonal and non-zero *)
+Example poly_drift_order2_columns_orthogonal :
+  let d := poly_drift 2 [3; 5; 7; 9; 11]%Q in
+  let c1 := nth 0 d [] in let c2 := nth 1 d [] in let k := nth 2 d [] in
+  kept (orth_mx [k; c1]) k /\ kept (orth_mx [k; c1]) c1 /\ orth_col [k; c1] (map (fun u => u * u)%Q c1) <> repeat 0%Q 5 /\
+  Qeq_bool (dot c1 c2) 0 = true /\ Qeq_bool (dot c1 k) 0 = true /\ Qeq_bool (dot c2 k) 0 = true /\
+  Qeq_bool (dot c2 c2) 0 = false.
+Proof. vm_compute. repeat split; try reflexivity. discriminate. Qed.
